@@ -493,6 +493,31 @@ class Conc:
                             return o.items.index(x) if x in o.items else -1
                         if short in ("isEmpty", "empty") and not real:
                             return int(not o.items)
+                        if short in ("first", "constFirst", "front", "last", "constLast", "back") and not real:
+                            if not o.items:
+                                raise Unknown("%s() of an empty list" % short)
+                            return o.items[0] if short in ("first", "constFirst", "front") else o.items[-1]
+                        if short in ("removeFirst", "pop_front", "takeFirst", "removeLast", "pop_back", "takeLast", "removeAt", "takeAt"):
+                            items = list(o.items)
+                            if short in ("removeAt", "takeAt"):
+                                i = self.eval(real[0], env, depth) if real else None
+                                if not isinstance(i, int):
+                                    raise Unknown("index of %s" % short)
+                                if not (0 <= i < len(items)):
+                                    if short == "takeAt":
+                                        raise Unknown("takeAt outside the list")
+                                    return 0
+                                x = items.pop(i)
+                            else:
+                                if not items:
+                                    raise Unknown("%s() of an empty list" % short)
+                                x = items.pop(0 if short in ("removeFirst", "pop_front", "takeFirst") else -1)
+                            self.store(skip_copies(obj), Table(items=items), env)
+                            return x if short.startswith("take") else 0
+                        if short == "mid" and real:
+                            ii = [self.eval(a_, env, depth) for a_ in real]
+                            if all(isinstance(i_, int) for i_ in ii) and ii[0] >= 0:
+                                return Table(items=list(o.items[ii[0]:] if len(ii) == 1 or ii[1] < 0 else o.items[ii[0]:ii[0] + ii[1]]))
                         if short in ("insert", "append", "push_back", "prepend", "push_front", "operator<<", "operator+=", "unite", "remove", "removeAll", "removeOne", "clear") and len(real) <= 1:
                             # value semantics: the container named by the receiver gets a new value
                             is_set = "QSet" in cls or "std::set" in cls or "unordered_set" in cls
